@@ -6,7 +6,7 @@ From Coq Require Import String List NArith Bool.
 From J5V.lib Require Import Outcome Strcase.
 From J5V.model Require Import J5sAst Desc J5sWalk J5sLink J5sConvert J5sContract J5sSymbols J5sTypeNames J5sValid J5sEdit J5sCorr.
 From J5V.proofs Require Import J5sProofs J5sContractProofs J5sLinkProofs J5sCompileProofs J5sSubPkgProofs J5sDepsProofs
-  J5sNameProofs J5sTypeNameProofs StrcaseProofs J5sStrcaseProofs J5sInfraDepsProofs J5sExtProofs J5sC13Proofs.
+  J5sNameProofs J5sTypeNameProofs StrcaseProofs J5sStrcaseProofs J5sInfraDepsProofs J5sExtProofs J5sPkgExtProofs J5sC13Proofs.
 Import ListNotations.
 Local Open Scope N_scope.
 
@@ -99,4 +99,60 @@ Theorem compile_sub_tnames_valid bd pkg D :
 Proof.
   intros Hv Hc. exact (compile_sub_tnames to_snake to_camel to_screaming_snake to_camel_nodot to_snake_nodot
                          bd pkg D Hv (valid_pkgs_nonempty _ _ _ bd Hv) Hc).
+Qed.
+
+(* ---- C13 for histories of ONE source file: only the first and the last version need to be
+   valid (the intermediate versions need not even compile - e.g. a field referring to a type
+   that a later edit of the sequence declares).  The general theorem (c13_full_valid) walks
+   through the intermediate bundles because its single step replaces one file; when every edit
+   addresses the same file the whole sequence is one step. *)
+Lemma nth_error_update_same {A} (g : A -> A) l : forall k x, nth_error l k = Some x -> nth_error (update_nth k g l) k = Some (g x).
+Proof.
+  induction l as [|y r IH]; intros k x Hk; destruct k; cbn in Hk; try discriminate; cbn [update_nth nth_error].
+  - inversion Hk. reflexivity.
+  - apply IH. exact Hk.
+Qed.
+
+Lemma update_nth_twice_const {A} (a c : A) l : forall k,
+  update_nth k (fun _ => c) (update_nth k (fun _ => a) l) = update_nth k (fun _ => c) l.
+Proof. induction l as [|y r IH]; intros k; destruct k; cbn [update_nth]; try reflexivity. f_equal. apply IH. Qed.
+
+Lemma apply_edits_same_file es : forall bd k f,
+  nth_error bd k = Some (BJ f) -> (forall e, In e es -> edit_target e = k) ->
+  apply_edits bd es = update_nth k (fun _ => BJ (fold_left (fun g e => edit_file e g) es f)) bd.
+Proof.
+  induction es as [|e r IH]; intros bd k f Hk Ht; cbn [apply_edits fold_left].
+  - clear Ht. revert k Hk. induction bd as [|x t IHb]; intros k Hk; destruct k; cbn in Hk; try discriminate; cbn [update_nth].
+    + inversion Hk. reflexivity.
+    + f_equal. apply IHb. exact Hk.
+  - change (fold_left apply_edit r (apply_edit bd e)) with (apply_edits (apply_edit bd e) r).
+    assert (He : apply_edit bd e = update_nth k (fun _ => BJ (edit_file e f)) bd).
+    { unfold apply_edit. rewrite (Ht e (or_introl eq_refl)). rewrite (update_nth_const _ _ _ _ Hk). reflexivity. }
+    rewrite He.
+    rewrite (IH _ k (edit_file e f)).
+    + apply update_nth_twice_const.
+    + exact (nth_error_update_same _ bd k (BJ f) Hk).
+    + intros e' He'. apply Ht. right. exact He'.
+Qed.
+
+Theorem c13_single_file : forall es bd pkg k f,
+  valid bd = true -> nth_error bd k = Some (BJ f) -> (forall e, In e es -> edit_target e = k) ->
+  valid (apply_edits bd es) = true ->
+  (exists x, In x bd /\ bfile_pkg x = pkg) ->
+  exists D D', compile bd pkg = Ok D /\ compile (apply_edits bd es) pkg = Ok D' /\ files_ext D D'.
+Proof.
+  intros es bd pkg k f Hv Hk Ht Hv' Hex.
+  destruct (compile_correct_full to_snake to_camel to_screaming_snake bd pkg Hv Hex) as (D & Hc & _).
+  set (f' := fold_left (fun g e => edit_file e g) es f) in *.
+  pose proof (edit_sequence_ext es f) as Hext. fold f' in Hext.
+  assert (Hn : NoDup (map bfile_path bd)).
+  { unfold valid, valid_bundle in Hv. apply andb_true_iff in Hv. destruct Hv as [_ Hd]. apply distinct_nodup. exact Hd. }
+  assert (Heq : apply_edits bd es = map (replace_file f') bd).
+  { rewrite (apply_edits_same_file es bd k f Hk Ht). fold f'.
+    apply update_nth_replace with (j := f); [exact Hn|exact Hk|]. apply (src_ext_path _ _ Hext). }
+  assert (Honly : forall x, In x bd -> bfile_path x = j5s_path f -> x = BJ f).
+  { intros x Hx Hp. eapply (nodup_map_inj bfile_path); [exact Hn|exact Hx|eapply nth_error_In; exact Hk|exact Hp]. }
+  rewrite Heq in Hv' |- *.
+  destruct (compile_ext_strcase bd f f' pkg D Hext Honly (valid_pkgs_nonempty _ _ _ bd Hv) Hv Hv' Hex Hc) as (D' & Hc' & He).
+  exists D, D'. auto.
 Qed.
